@@ -23,6 +23,8 @@ class Machine:
         self.fail_while_down = 0
         self.redundant_calls = 0
         self.orders_judged = 0
+        self.late = {}
+        self.n_ref = 0
 
     def on_event(self, env, head):
         ctx, m = self.ctx, self.m
@@ -43,6 +45,8 @@ class Machine:
             script_op = op
             if op['op'] in ('shutdown', 'restore') and op.get('target') in self.orders:
                 self.orders[op['target']]['disturbed'] = True
+            if op['op'] == 'create_asset' and op.get('what') == 'processor':
+                self.late[out] = t
         if failing in self.orders:
             self.orders[failing]['disturbed'] = True
         # callback rounds of this event
@@ -56,11 +60,29 @@ class Machine:
             t, did, idx, ser = log.restores[self.n_rest]
             self.n_rest += 1
             rest.setdefault(did, []).append(idx)
+        refused = set()
+        while self.n_ref < len(log.refusals):
+            refused.add(log.refusals[self.n_ref][1])
+            self.n_ref += 1
+            ctx.count('planned_stops_refused_by_a_callback')
+        for p in refused:
+            if p in self.orders:
+                self.orders[p]['disturbed'] = True
         hooks = []
         while self.n_hooks < len(log.hooks):
             t, did, what, tag, ser = log.hooks[self.n_hooks]
             self.n_hooks += 1
             hooks.append((did, what, tag))
+        # processors created while the clock was already running: never shut down, never fed
+        for a in m.world.extra:
+            t0 = self.late.get(getattr(a, 'name', None))
+            if t0 is None:
+                continue
+            if a.uptime != now - t0 or a.utilization_time != 0:
+                ctx.report('uptime', f'{a.name}, created at {t0!r} and operational ever since: uptime {a.uptime!r}, '
+                           f'utilization_time {a.utilization_time!r} at {now!r}')
+                return
+            ctx.count('late_processor_accounting_checks')
         for p in self.procs:
             dev = m.devs[p]
             was = self.oper[p]
@@ -140,6 +162,20 @@ class Machine:
                         return
                     self.transitions += 1
                     ctx.count('transitions')
+                elif p in refused:
+                    # a zero-length stop: one complete round of shutdown callbacks, then one of restored callbacks,
+                    # the machine operational before and after and holding what it held
+                    want = [(0, False, None), (1, False, None), (2, False, None)]
+                    if len(rounds) != 3 or any(a[0] != b[0] or a[1] != b[1] or a[2] is not None
+                                               for a, b in zip(rounds, want)) or rest.get(p, []) != [0, 1, 2]:
+                        ctx.report('shutdown_callbacks', f'{p}: planned stop at {now!r} refused by a callback: shutdown '
+                                   f'callbacks {[(i, f) for i, f, x in rounds]}, restored callbacks {rest.get(p, [])}')
+                        return
+                    if not o:
+                        ctx.report('restore_ignored', f'{p}: restore_functionality() from a shutdown callback at {now!r} '
+                                   f'left the machine down')
+                        return
+                    ctx.count('zero_length_stops_checked')
                 elif rounds:
                     ctx.report('shutdown_callbacks', f'{p}: shutdown callbacks ran at {now!r} without a state change '
                                f'or failure ({[(i, f) for i, f, x in rounds]})')
@@ -158,6 +194,8 @@ class Machine:
                     return
                 self.transitions += 1
                 ctx.count('transitions')
+            elif rr and p in refused:
+                pass
             elif rr:
                 ctx.report('restored_callbacks', f'{p}: restored callbacks {rr} at {now!r} without a state change')
                 return
@@ -168,7 +206,7 @@ class Machine:
                     ctx.report('redundant_restore', f'{p}: redundant restore_functionality() changed the held parts')
                     return
             if script_op is not None and script_op.get('target') == p:
-                if script_op['op'] == 'shutdown' and was and o:
+                if script_op['op'] == 'shutdown' and was and o and p not in refused:
                     ctx.report('shutdown_ignored', f'{p}: shutdown() at {now!r} left the machine operational')
                     return
                 if script_op['op'] == 'restore' and not was and not o:
@@ -185,9 +223,9 @@ class Machine:
             if did not in self.oper:
                 continue
             if what == 'start':
-                self.orders[did] = {'t': now, 'tag': tag, 'disturbed': False,
+                self.orders[did] = {'t': now, 'tag': tag, 'disturbed': did in refused,
                                     'dur': (m.items[did].get('wo') or {}).get(tag, [0, 0, 0])[0]}
-                if cen.oper[did]:
+                if cen.oper[did] and did not in refused:
                     ctx.report('work_order_down', f'{did} is operational right after start_work({tag}) at {now!r}')
                     return
             else:
